@@ -484,7 +484,7 @@ def run_obligation(ob, tier, scratch, want_cex=True):
         kind, key = classify(ob, r)
         st = r.get("status")
         if kind == "reach":
-            rec["reach"][key] = st
+            rec["reach"][key] = "FAILURE" if "FAILURE" in (rec["reach"].get(key), st) else st   # a witness placed at several sites: reached at least once
         elif kind == "label":
             prev = rec["labels"].get(key)
             rec["labels"][key] = "FAILURE" if "FAILURE" in (prev, st) else st
